@@ -20,8 +20,8 @@ namespace {
 using flat::State;
 using sysinst::Sys;
 
-enum Kind : int { Step, Trigger, Ack, SetEnable, SetVEnable, SetVector, PokeCore, Exec, TimerStart, HostSend, DmaStart, Audio, NKIND };
-const char* kKindName[] = {"step", "trigger", "ack", "enable", "venable", "vector", "poke", "exec", "timer", "hostsend", "dmastart", "audio"};
+enum Kind : int { Step, Trigger, Ack, SetEnable, SetVEnable, SetVector, PokeCore, Exec, TimerStart, HostSend, DmaStart, Audio, IdleRun, NKIND };
+const char* kKindName[] = {"step", "trigger", "ack", "enable", "venable", "vector", "poke", "exec", "timer", "hostsend", "dmastart", "audio", "idlerun"};
 struct Op {
     int kind = Step;
     uint32_t a = 0, b = 0, c = 0;
@@ -228,6 +228,9 @@ struct Model {
             regs[flat::F_pc] = pc;
             break;
         }
+        case 11: // brr -1: the program waits on a self-branch (the interpreter may fast-forward; the boundaries stay the same)
+            regs[flat::F_pc] = regs[flat::F_pc] - 1;
+            break;
         case 10: { // mov #imm5, icr: one word; the per-line context-switch bits (and nimc) take the value; bit 4 (loop) written 0
             uint64_t pc = regs[flat::F_pc];
             regs = layout::write(layout_index("icr"), regs, (uint16_t)(n & 0x0F));
@@ -302,6 +305,8 @@ rc::Gen<Op> genOp() {
                  [](std::tuple<uint32_t, uint32_t, uint32_t> t) { return Op{SetVector, std::get<0>(t), std::get<1>(t), std::get<2>(t)}; }),
         gen::map(gen::tuple(vf::range<uint32_t>(0, 16), vf::range<uint32_t>(0x28000, 0x3E000), vf::range<uint32_t>(0, 2)),
                  [](std::tuple<uint32_t, uint32_t, uint32_t> t) { return Op{SetVector, std::get<0>(t), std::get<1>(t), std::get<2>(t)}; }),
+        gen::map(gen::tuple(vf::range<uint32_t>(0, 2), vf::range<uint32_t>(0, 6), vf::range<uint32_t>(0, 39)),
+                 [](std::tuple<uint32_t, uint32_t, uint32_t> t) { return Op{IdleRun, std::get<0>(t), std::get<1>(t), std::get<2>(t)}; }),
         gen::map(vf::range<uint32_t>(0, 1u << 13), [](uint32_t v) { return Op{PokeCore, v, 0, 0}; }),
         gen::map(vf::range<uint32_t>(0, 1u << 13), [](uint32_t v) { return Op{PokeCore, v | 0x0F, 0, 0}; }), // everything enabled
         gen::map(gen::pair(gen::element<uint32_t>(1, 1, 2, 3, 3, 4, 5), vf::range<uint32_t>(0, 6)), [](std::pair<uint32_t, uint32_t> p) { return Op{Exec, p.first, p.second, 0}; }),
@@ -525,6 +530,39 @@ vf::Result check(const Case& cs) {
                 return r;
             break;
         }
+        case IdleRun: {
+            // the program idles on a self-branch while a timer (1..6 cycles) runs out, all inside ONE Run call of 2..40 cycles:
+            // the request must be taken at the first boundary where it may, exactly as when every cycle is stepped
+            if (m.regs[flat::F_rep]) {
+                vf::klass("idle run skipped (repeat running)");
+                break;
+            }
+            const uint32_t pc = (uint32_t)m.regs[flat::F_pc];
+            const unsigned t = op.a % 2, start = 1 + op.b % 6, n = 2 + op.c % 39;
+            const uint16_t base = (uint16_t)(0x20 + 0x10 * t);
+            trace += "idlerun(timer" + std::to_string(t) + "=" + std::to_string(start) + "," + std::to_string(n) + ") ";
+            const uint16_t saved = s.t->ProgramRead(pc);
+            s.t->ProgramWrite(pc, W("brr(RelAddr7,CondValue)", {0x7F, 0}));
+            s.t->MMIOWrite(base + 4, (uint16_t)start);
+            s.t->MMIOWrite(base + 6, 0);
+            s.t->MMIOWrite(base, 0x0400); // single mode, restart
+            m.tm[t].counter = start;
+            m.tm[t].running = true;
+            auto o = s.guarded([&] { s.t->Run(n); });
+            s.t->ProgramWrite(pc, saved);
+            if (o.kind != 0)
+                return fail("C07:idlerun:outcome", "Run(" + std::to_string(n) + ") ended with " + o.what, i);
+            uint64_t e0 = m.entries;
+            for (unsigned k = 0; k < n; ++k)
+                m.step(m.regs[flat::F_pc] == pc ? 11 : 0, 0);
+            if (m.entries != e0)
+                vf::klass("handler entry out of an idle self-branch inside one Run call");
+            vf::klass("idle self-branch with a timer running out, one Run call");
+            r = compare(i, ctx);
+            if (!r.ok)
+                return r;
+            break;
+        }
         case TimerStart: {
             unsigned t = op.a % 2;
             uint16_t base = (uint16_t)(0x20 + 0x10 * t);
@@ -584,7 +622,7 @@ vf::Result check(const Case& cs) {
             break;
         }
         }
-        if (op.kind != Step && op.kind != Exec && op.kind != Audio) {
+        if (op.kind != Step && op.kind != Exec && op.kind != Audio && op.kind != IdleRun) {
             r = compare(i, ctx);
             if (!r.ok)
                 return r;
